@@ -50,7 +50,6 @@ Hypothesis HcplOK : CplOK c.
 Hypothesis HcplAnti : CplAnti c.
 Hypothesis HtgAnti : TgAnti c.
 Hypothesis HtgNoInit : forall ti g, In g (ft_targets (tr c ti)) -> fs_type (st c g) <> FInitial.
-Hypothesis Hhtnd : forall ti, NoDup (filter (fun s => histS c s) (ft_targets (tr c ti))).
 Hypothesis root_compound : fs_type (st c 0) = FCompound.
 Hypothesis HDF : DeepFull c.
 Hypothesis Hleaf : forall x k, is_atomic_state c x = true -> fs_parent (st c k) <> Some x.
@@ -69,7 +68,6 @@ Hypothesis Hlegal : LegalCfgH c cfg.
 Hypothesis HH : HistOK c (l_hist l).
 Hypothesis HD : HistDown c (l_hist l).
 Hypothesis HR : hv_rel c (l_hist l) (s_hv s).
-Hypothesis Hsel_nd : NoDup sel.
 Hypothesis Hsel_src : forall ti, In ti sel -> In (ft_source (tr c ti)) cfg.
 Hypothesis Hsel_ok : pairwise_ok lg_fixed c sel.
 Hypothesis Hsel_np : forall ti, In ti sel -> ft_history (tr c ti) || ft_initial (tr c ti) = false.
@@ -129,8 +127,10 @@ Proof.
                 Hleg Hbound Hprop Hsel_src Hsel_ok HHr HDr HRr Hdom1) as Htset.
   pose proof (trans_set_history_hist_sec c W HcplOK HcplAnti HtgAnti HtgNoInit root_compound HPAR Hleaf cfg sel hv1 hist
                 Hleg Hbound Hprop Hsel_src Hsel_ok HHr HDr HRr) as Hhset.
-  pose proof (spec_hc_h c W HcplOK HcplAnti HtgAnti HtgNoInit root_compound HPAR Hleaf cfg sel hv1 hist
+  pose proof (spec_hc_in c W HcplOK HcplAnti HtgAnti HtgNoInit root_compound HPAR Hleaf cfg sel hv1 hist
                 Hleg Hbound Hprop Hsel_src Hsel_ok HHr HDr HRr Hdom1) as Hhc.
+  pose proof (spec_hc_nodup c W HcplOK HcplAnti HtgAnti HtgNoInit root_compound HPAR Hleaf cfg sel hv1 hist
+                Hleg Hbound Hprop Hsel_src Hsel_ok HHr HDr HRr Hdom1) as HLnd0.
   pose proof (spec_default_h c W HcplOK HcplAnti HtgAnti HtgNoInit root_compound HPAR Hleaf cfg sel hv1 hist
                 Hleg Hbound Hprop Hsel_src Hsel_ok HHr HDr HRr Hdom1) as Hdf.
   pose proof (spec_set_h c W HcplOK HcplAnti HtgAnti HtgNoInit root_compound HPAR Hleaf cfg sel hv1 hist
@@ -138,8 +138,6 @@ Proof.
   pose proof (default_no_hist_target c W HcplOK HcplAnti HtgAnti HtgNoInit root_compound HPAR Hleaf cfg sel hv1 hist
                 Hleg Hbound Hprop Hsel_src Hsel_ok HHr HDr HRr Hdom1) as Hnodef.
   pose proof (hc_of_spec c sel hv1) as Hhcs.
-  pose proof (hist_target_unique c W HtgAnti HPAR Hleaf cfg sel hv1 hist
-                Hleg Hbound Hprop Hsel_src Hsel_ok HHr HDr HRr) as Huq.
   unfold EfinH, TfinH, SurvH in Hset, Htset, Hhset.
   change (LegalLarge.exitset c cfg sel) with X in Hset, Htset, Hhset. change (LegalLarge.targets c sel) with (sel_targets c sel) in Hset, Htset, Hhset, Hnodef.
   destruct (entry_set lg_fixed c cfg X hist (sel_targets c sel) sel) as [es ts] eqn:Ees. cbn [fst snd] in Hts, Hes, Hset, Htset, Hhset.
@@ -181,23 +179,10 @@ Proof.
     - now apply (pch_spec c W).
     - now apply (pch_spec c W). }
   (* defaultHistoryContent: one entry per parent *)
-  assert (HLnd : NoDup (map fst (hc_of c hv1 sel))).
-  { unfold hc_of. apply NoDup_map_flat_map; [exact Hsel_nd| |].
-    - intros ti Hti. rewrite (flat_map_filter (RunConformHistSpec.hc_one c hv1) (fun z => histS c z)).
-      2: { intros z Hz. unfold RunConformHistSpec.hc_one. now rewrite hist_state_iff, Hz. }
-      apply NoDup_map_flat_map; [apply Hhtnd| |].
-      + intros z _. unfold RunConformHistSpec.hc_one. destruct (is_history_state c z); [|constructor].
-        destruct (hv_get hv1 z); [constructor|]. destruct (fs_trans (st c z)); [constructor|].
-        destruct (fs_parent (st c z)); [|constructor]. cbn. constructor; [intros [] | constructor].
-      + intros z1 z2 [p1 t1] [p2 t2] Hz1 Hz2 Hb1 Hb2 E. cbn [fst] in E. subst p2.
-        apply filter_In in Hz1 as [Hz1 _]. apply filter_In in Hz2 as [Hz2 _].
-        apply (hc_one_spec c hv1) in Hb1 as (A1 & _ & A2 & _). apply (hc_one_spec c hv1) in Hb2 as (B1 & _ & B2 & _).
-        exact (proj2 (Huq ti z1 ti z2 p1 Hti Hz1 A1 A2 Hti Hz2 B1 B2)).
-    - intros t1 t2 [p1 u1] [p2 u2] Ht1 Ht2 Hb1 Hb2 E. cbn [fst] in E. subst p2.
-      apply in_flat_map in Hb1 as (z1 & Hz1 & Hb1). apply in_flat_map in Hb2 as (z2 & Hz2 & Hb2).
-      apply (hc_one_spec c hv1) in Hb1 as (A1 & _ & A2 & _). apply (hc_one_spec c hv1) in Hb2 as (B1 & _ & B2 & _).
-      exact (proj1 (Huq t1 z1 t2 z2 p1 Ht1 Hz1 A1 A2 Ht2 Hz2 B1 B2)). }
-  fold e in Hhc.
+  fold e in Hhc, HLnd0.
+  assert (HLnd : NoDup (map fst (rev (e_histcontent e)))) by (rewrite map_rev; now apply NoDup_rev).
+  assert (HinL : forall i ti, In (i, ti) (rev (e_histcontent e)) <-> In (i, ti) (hc_of c hv1 sel)).
+  { intros i ti. rewrite <- in_rev. apply Hhc. }
   pose proof (enter_fold_conforms_hh c W HcplOK ts e CF (fun i => In i (e_enter e)) Sen Sbody Hbody Hdata HPAR Hfin_par Hfin_up
                 Huniq HCFp Hflags Htrn (fun i Hi => proj1 (proj1 (Hdf i) Hi))) as HE.
   specialize (HE (fun i x ti Hi Hp Hk Hti => Htset i x ti Hi Hp Hk Hti)).
@@ -206,16 +191,16 @@ Proof.
             erel_h c CF (fold_left (enter_one ex_fixed c ts) es0 a) (fold_left (spec_enter_one c e) es0 sx)).
   { apply HE.
     - (* the default transitions of histories *)
-      intros i H ti Hi HpH HhH Hti. rewrite Hhc. rewrite (Hhset H ti HhH Hti), Hhcs. split.
+      intros i H ti Hi HpH HhH Hti. rewrite HinL. rewrite (Hhset H ti HhH Hti), Hhcs. split.
       + intros (HT & Hv & r & Htr). apply (hIn_targets c sel) in HT as (tj & Htj & HT). exists tj, H. eauto 10.
       + intros (tj & z & Htj & Hz & A1 & A2 & A3 & r & A4).
         assert (z = H).
         { rewrite <- (wh_tr_src c W z ti) by (rewrite A4; now left). exact (wh_tr_src c W H ti Hti). }
         subst z. split; [apply (hIn_targets c sel); eauto|]. split; [exact A2 | eauto].
-    - intros i Hi. rewrite Hhc. apply filter_key_one. exact HLnd.
-    - intros i ti Hid. rewrite Hhc, Hhcs. intros (tj & z & Htj & Hz & A1 & A2 & A3 & _).
+    - intros i Hi. apply filter_key_one. exact HLnd.
+    - intros i ti Hid. rewrite HinL, Hhcs. intros (tj & z & Htj & Hz & A1 & A2 & A3 & _).
       apply (Hnodef i z Hid); [apply (hIn_targets c sel); eauto | exact A1 | exact A3].
-    - intros i ti. rewrite Hhc, Hhcs. intros (tj & z & Htj & Hz & A1 & A2 & A3 & r & A4). exists z, r. auto. }
+    - intros i ti. rewrite HinL, Hhcs. intros (tj & z & Htj & Hz & A1 & A2 & A3 & r & A4). exists z, r. auto. }
   specialize (HE' (sort_doc (e_enter e))
                 {| ea_cfg := 0 :: fst rx; ea_initd := l_initd l; ea_tlf := l_tlf l; ea_x := x2 |}
                 ({| s_cfg := fst rx; s_hv := hv1; s_running := s_running s; s_entered := s_entered s |}, x2)).
